@@ -148,7 +148,7 @@ def _kernels():
     import mahotas as mh
     import mahotas.features, mahotas.features.surf, mahotas.features.texture, mahotas.labeled
     import mahotas.interpolate, mahotas.polygon, mahotas.segmentation, mahotas.thresholding
-    import mahotas._convolve, mahotas._center_of_mass, mahotas._convex
+    import mahotas._convolve, mahotas._center_of_mass, mahotas._convex, mahotas._interpolate
     K = {}
 
     def reg(name, uses, fn):
@@ -162,7 +162,9 @@ def _kernels():
     reg('open', ['b'], lambda I: mh.open(g(I, 'b')))
     reg('close', ['f'], lambda I: mh.close(g(I, 'f')))
     reg('cwatershed', ['f', 'm'], lambda I: mh.cwatershed(g(I, 'f'), g(I, 'm')))
-    reg('cwatershed_lines', ['f', 'm'], lambda I: mh.cwatershed(g(I, 'f'), g(I, 'm'), return_lines=True))
+    # the labels only: the `lines` output of return_lines=True is not initialised by the kernel where no line
+    # is drawn (DESIGN section 6 finding 7, owned by C04) and differs from call to call even sequentially
+    reg('cwatershed_lines', ['f', 'm'], lambda I: mh.cwatershed(g(I, 'f'), g(I, 'm'), return_lines=True)[0])
     reg('hitmiss', ['b8', 'hm'], lambda I: mh.hitmiss(g(I, 'b8'), g(I, 'hm')))
     reg('majority_filter', ['b'], lambda I: mh.majority_filter(g(I, 'b'), 3))
     reg('locmax', ['f'], lambda I: mh.locmax(g(I, 'f')))
@@ -229,8 +231,9 @@ def _kernels():
     reg('raise_cooccurence_negative', ['neg'], lambda I: mh.features.texture.cooccurence(g(I, 'neg'), 0))
     reg('raise_native_convolve_mode', ['fl', 'w3'], lambda I: mahotas._convolve.convolve(
         g(I, 'fl'), g(I, 'w3'), np.empty_like(g(I, 'fl')), 77))
-    reg('raise_spline_order', ['fl'], lambda I: mh.interpolate.spline_filter1d(g(I, 'fl'), order=7))
+    reg('raise_native_spline_order', ['fl'], lambda I: mahotas._interpolate.spline_filter1d(g(I, 'fl').copy(), 7, 0))
     # ... in the Python wrappers / native validation (lock held)
+    reg('raise_wrapper_spline_order', ['fl'], lambda I: mh.interpolate.spline_filter1d(g(I, 'fl'), order=7))
     reg('raise_wrapper_erode_ndim', ['b'], lambda I: mh.erode(g(I, 'b'), np.ones((3, 3, 3), bool)))
     reg('raise_wrapper_convolve_mode', ['fl', 'w3'], lambda I: mh.convolve(g(I, 'fl'), g(I, 'w3'), mode='nosuch'))
     reg('raise_wrapper_thin_ndim', ['fl'], lambda I: mh.thin(np.zeros((3, 3, 3), bool)))
@@ -245,8 +248,8 @@ def _fill_polygon(mh, np, I):
     return canvas
 
 
-RAISING = ['raise_cooccurence_negative', 'raise_native_convolve_mode', 'raise_spline_order',
-           'raise_wrapper_erode_ndim', 'raise_wrapper_convolve_mode', 'raise_wrapper_thin_ndim', 'raise_native_type']
+RAISING = ['raise_cooccurence_negative', 'raise_native_convolve_mode', 'raise_native_spline_order',
+           'raise_wrapper_spline_order', 'raise_wrapper_erode_ndim', 'raise_wrapper_convolve_mode', 'raise_wrapper_thin_ndim', 'raise_native_type']
 IN_KERNEL_RAISING = RAISING[:3]
 NATIVE_PROBES = ['native_center_of_mass', 'native_convexhull']
 # kernels drawn for random mixes (names only: the registry itself lives in the child)
@@ -320,6 +323,9 @@ def _describe(r):
     if r[0] == 'exc':
         return f'raised {r[1]}: {r[2][:120]}'
     c = r[1]
+    if c[0] == 'np':
+        import numpy as np
+        return f'{c[1]}({np.frombuffer(c[2], dtype=c[1])[0]!r})'
     if c[0] == 'nd':
         import hashlib
         return f'ndarray {c[1]} {c[2]} sha1={hashlib.sha1(c[3]).hexdigest()[:12]}'
@@ -377,7 +383,13 @@ def run_stress(case):
     seq2 = [_call(K[name][0], I) for (name, _, _), I in zip(calls, ref_inputs)]
     unstable = {i for i, (a, b) in enumerate(zip(seq, seq2)) if a != b}
     snapshots = [{k: v.copy() for k, v in I.arrays().items()} for I in ref_inputs]
-    nonconst = any(r[0] == 'ok' and r[1][0] == 'nd' and len(set(r[1][3])) > 1 for r in seq)
+    def _nc(c):
+        if c[0] == 'nd':
+            return len(set(c[3])) > 1
+        if c[0] in ('tuple', 'list'):
+            return any(_nc(v) for v in c[1:])
+        return False
+    nonconst = any(r[0] == 'ok' and _nc(r[1]) for r in seq)
 
     # ---- concurrent run
     if shared:
@@ -394,14 +406,13 @@ def run_stress(case):
                 I.get(u)
     gc.collect()
     refc0 = [{k: sys.getrefcount(v) for k, v in I.arrays().items()} for I in ref_inputs] if shared else None
-    results = [[None] * (reps * len(calls)) for _ in range(nthreads)]
-    barrier = threading.Barrier(nthreads)
+    rounds = int(case.get('rounds', 1))
+    results = [[None] * (rounds * reps * len(calls)) for _ in range(nthreads)]
     started = [0]
     old_sw = sys.getswitchinterval()
-    if case.get('reset_perimeter'):
-        mh.labeled._perimeter_values = None
+    hung = []
 
-    def work(t):
+    def work(t, rnd, barrier):
         Is = per_thread[t]
         try:
             barrier.wait(timeout=60)
@@ -412,21 +423,27 @@ def run_stress(case):
         for rep in range(reps):
             for j in range(n):
                 i = (j + t) % n                     # rotated order: different kernels overlap
-                results[t][rep * n + i] = _call(K[calls[i][0]][0], Is[i])
+                results[t][(rnd * reps + rep) * n + i] = _call(K[calls[i][0]][0], Is[i])
 
-    if case.get('switch'):
-        sys.setswitchinterval(float(case['switch']))
-    try:
-        ths = [threading.Thread(target=work, args=(t,), daemon=True) for t in range(nthreads)]
-        t0 = time.time()
-        for th in ths:
-            th.start()
-        deadline = t0 + float(case.get('timeout', 300))
-        for th in ths:
-            th.join(max(0.1, deadline - time.time()))
-        hung = [i for i, th in enumerate(ths) if th.is_alive()]
-    finally:
-        sys.setswitchinterval(old_sw)
+    t0 = time.time()
+    deadline = t0 + float(case.get('timeout', 300))
+    for rnd in range(rounds):
+        if case.get('reset_perimeter'):
+            mh.labeled._perimeter_values = None      # first-use race of the lazily initialised module global
+        barrier = threading.Barrier(nthreads)
+        if case.get('switch'):
+            sys.setswitchinterval(float(case['switch']))
+        try:
+            ths = [threading.Thread(target=work, args=(t, rnd, barrier), daemon=True) for t in range(nthreads)]
+            for th in ths:
+                th.start()
+            for th in ths:
+                th.join(max(0.1, deadline - time.time()))
+            hung = [i for i, th in enumerate(ths) if th.is_alive()]
+        finally:
+            sys.setswitchinterval(old_sw)
+        if hung:
+            break
     if hung:
         findings.append(dict(kind='property', key='hang:' + '+'.join(sorted({c[0] for c in calls})),
                              detail=dict(threads_alive=hung, note='threads did not finish: lock not re-acquired or deadlock')))
@@ -452,7 +469,7 @@ def run_stress(case):
                 if key not in seen:
                     seen.add(key)
                     findings.append(dict(kind='property', key=key, detail=dict(
-                        kernel=name, thread=t, rep=idx // n, sequential=_describe(seq[i]), concurrent=_describe(r),
+                        kernel=name, thread=t, call_index=idx // n, sequential=_describe(seq[i]), concurrent=_describe(r),
                         threads=nthreads, shared=shared)))
     for i in unstable:
         findings.append(dict(kind='model', key='sequential-nondeterministic:' + calls[i][0],
@@ -478,7 +495,7 @@ def run_stress(case):
                             seen.add(key)
                             findings.append(dict(kind='property', key=key, detail=dict(
                                 kernel=name, array=k, refcount_before=before[k], refcount_after=before[k] + d,
-                                threads=nthreads, calls_per_thread=reps,
+                                threads=nthreads, calls_per_thread=reps * rounds,
                                 note='sys.getrefcount of a shared input changed across the concurrent run '
                                      '(single-threaded runs leave it unchanged): Py_INCREF/Py_DECREF executed '
                                      'without the interpreter lock')))
@@ -493,7 +510,7 @@ def run_stress(case):
                 first_use=bool(case.get('reset_perimeter')))
     return dict(findings=findings, nontrivial=bool(started[0] >= 2 and nonconst),
                 sig=json.dumps([case['calls'], nthreads, shared, case.get('switch')]), tags=tags,
-                n=nthreads * reps * len(calls), kernels=sorted({c[0] for c in calls}),
+                n=nthreads * reps * rounds * len(calls), kernels=sorted({c[0] for c in calls}),
                 exceptions=sum(1 for r0 in seq if r0[0] == 'exc'))
 
 
